@@ -13,6 +13,9 @@ Copy-pasted statements folded into one comprehension / loop over a literal colle
 .items() of them; unpacked, indexed, or splatted into a call with * / **) are written out case by case first (`written_out`).  One loop that
 fills several collections (with loop-local temporaries) is one comprehension per collection; `dataclasses.fields(self)` / `__dataclass_fields__`
 of a dataclass of the package are its declared field names, `getattr(x, "name")` is `x.name`, tests between written-out labels are decided.
+A tuple / list of literal labels bound once at class level or module level and never re-bound / changed anywhere in the package (`_class_constant`,
+`_module_constant`) is that display wherever it is read; `dataclasses.replace(obj, **changes)` on an instance of the method's own dataclass is the
+constructor call with the fields not named taken from obj; a class-level alias `__rmul__ = __mul__` is that method (`_builder`).
 """
 from __future__ import annotations
 
@@ -87,6 +90,160 @@ def _binds(e) -> set:
     return out
 
 
+# -- constants: a tuple / list display of literal labels that is bound exactly once, directly in a class body or at module level, and that nothing in
+#    the package re-binds, shadows, deletes or (for a list) changes or keeps.  A read of such a name evaluates to that display, whatever path led there.
+_READ_CALLS = ("len", "zip", "enumerate", "tuple", "list", "sorted", "reversed", "set", "frozenset")
+_SCAN: dict = {}
+_DEFS = (ast.FunctionDef, ast.AsyncFunctionDef, ast.ClassDef)
+
+
+def _label_display(v) -> bool:
+    return isinstance(v, (ast.Tuple, ast.List)) and 0 < len(v.elts) <= 12 \
+        and all(isinstance(e, ast.Constant) and isinstance(e.value, (str, int)) and not isinstance(e.value, bool) for e in v.elts)
+
+
+def _bound_in(fnode) -> set:
+    """names bound somewhere inside a function (parameters, stores, definitions, imports, global / nonlocal declarations; nested scopes included)"""
+    out = set()
+    for x in ast.walk(fnode):
+        if isinstance(x, ast.Name) and isinstance(x.ctx, (ast.Store, ast.Del)):
+            out.add(x.id)
+        elif isinstance(x, ast.arg):
+            out.add(x.arg)
+        elif isinstance(x, _DEFS) and x is not fnode:
+            out.add(x.name)
+        elif isinstance(x, (ast.Global, ast.Nonlocal)):
+            out |= set(x.names)
+        elif isinstance(x, (ast.Import, ast.ImportFrom)):
+            out |= {(al.asname or al.name).split(".")[0] for al in x.names}
+        elif isinstance(x, ast.ExceptHandler) and x.name:
+            out.add(x.name)
+        elif isinstance(x, (ast.MatchAs, ast.MatchStar)) and x.name:
+            out.add(x.name)
+    return out
+
+
+def _scope_bindings(body, name: str) -> list:
+    """the statements of a class / module body (compound statements entered, function and class bodies not) that bind `name`"""
+    out = []
+    stack = list(body)
+    while stack:
+        x = stack.pop()
+        if isinstance(x, _DEFS):
+            if x.name == name:
+                out.append(x)
+            # decorators / defaults / base classes are evaluated in this scope (a walrus there binds here)
+            stack.extend(x.decorator_list)
+            continue
+        if isinstance(x, ast.Lambda):
+            continue
+        if isinstance(x, ast.Name) and isinstance(x.ctx, (ast.Store, ast.Del)) and x.id == name:
+            out.append(x)
+        elif isinstance(x, (ast.Import, ast.ImportFrom)) and any((al.asname or al.name).split(".")[0] == name or al.name == "*" for al in x.names):
+            out.append(x)
+        elif isinstance(x, (ast.Global, ast.Nonlocal)) and name in x.names:
+            out.append(x)
+        elif isinstance(x, ast.ExceptHandler) and x.name == name:
+            out.append(x)
+        stack.extend(ast.iter_child_nodes(x))
+    return out
+
+
+def _package_scan(S) -> dict:
+    hit = _SCAN.get(id(S))
+    if hit is not None and hit[0] is S:
+        return hit[1]
+    sc = {"stored": set(), "dynamic": set(), "any": False, "imported": {}, "globals": {}, "class_level": {}}
+    for mn, m in S.modules.items():
+        for x in ast.walk(m.tree):
+            if isinstance(x, ast.Attribute) and isinstance(x.ctx, (ast.Store, ast.Del)):
+                sc["stored"].add(x.attr)
+            elif isinstance(x, ast.Attribute) and x.attr in ("__dict__", "__setattr__", "__delattr__"):
+                sc["dynamic"].add(mn)
+            elif isinstance(x, ast.Call) and (dotted(x.func) or "").split(".")[-1] in ("setattr", "delattr"):
+                a = x.args[1] if len(x.args) > 1 else None
+                if isinstance(a, ast.Constant) and isinstance(a.value, str):
+                    sc["stored"].add(a.value)
+                else:
+                    sc["any"] = True
+            elif isinstance(x, ast.Call) and dotted(x.func) in ("globals", "vars", "locals"):
+                sc["dynamic"].add(mn)
+            elif isinstance(x, ast.ImportFrom):
+                for al in x.names:
+                    sc["imported"].setdefault(al.name, set()).add(mn)
+            elif isinstance(x, ast.Global):
+                sc["globals"].setdefault(mn, set()).update(x.names)
+            elif isinstance(x, ast.ClassDef):
+                for st in x.body:
+                    for t in (st.targets if isinstance(st, ast.Assign) else [st.target] if isinstance(st, (ast.AnnAssign, ast.AugAssign)) else []):
+                        for y in ast.walk(t):
+                            if isinstance(y, ast.Name):
+                                sc["class_level"].setdefault(y.id, set()).add(id(x))
+                    if isinstance(st, _DEFS):
+                        sc["class_level"].setdefault(st.name, set()).add(id(x))
+    _SCAN[id(S)] = (S, sc)
+    return sc
+
+
+def _only_read(roots, is_ref) -> bool:
+    """every reference to the collection under `roots` only reads it: iterates over it, indexes / slices it, measures it, asks for membership, hands
+    it to a builtin that builds something new from its elements (a reference that could change it, keep it or pass it on is none of these)"""
+    for root in roots:
+        parent = {id(c): p for p in ast.walk(root) for c in ast.iter_child_nodes(p)}
+        for x in ast.walk(root):
+            if not is_ref(x):
+                continue
+            p = parent.get(id(x))
+            ok = (isinstance(p, (ast.For, ast.AsyncFor, ast.comprehension)) and p.iter is x) \
+                or (isinstance(p, ast.Subscript) and p.value is x and isinstance(p.ctx, ast.Load)) \
+                or (isinstance(p, ast.Call) and any(a is x for a in p.args) and isinstance(p.func, ast.Name) and p.func.id in _READ_CALLS) \
+                or (isinstance(p, ast.Compare) and any(c is x for c in p.comparators) and all(isinstance(o, (ast.In, ast.NotIn)) for o in p.ops))
+            if not ok:
+                return False
+    return True
+
+
+def _class_constant(S, ci, name: str):
+    """the display that `<instance or class>.name` evaluates to for the class ci, when `name` is such a constant of ci; else None"""
+    sc = _package_scan(S)
+    if name in sc["stored"] or sc["any"] or ci.module in sc["dynamic"] or name.startswith("__") or sc["class_level"].get(name, set()) != {id(ci.node)}:
+        return None
+    if any(mm in ci.methods for mm in ("__getattribute__", "__setattr__", "__getattr__")) or any(k.arg == "metaclass" for k in ci.node.keywords):
+        return None
+    binds = _scope_bindings(ci.node.body, name)
+    st = next((s_ for s_ in ci.node.body if isinstance(s_, (ast.Assign, ast.AnnAssign)) and s_.value is not None
+               and any(b is (s_.targets[0] if isinstance(s_, ast.Assign) and len(s_.targets) == 1 else getattr(s_, "target", None)) for b in binds)), None)
+    if len(binds) != 1 or st is None or not _label_display(st.value):
+        return None
+    if isinstance(st, ast.AnnAssign) and "ClassVar" not in src(st.annotation) and "Final" not in src(st.annotation):
+        is_dc = any("dataclass" in src(d) for d in ci.node.decorator_list)
+        if is_dc or ci.bases:
+            return None              # an annotated name of a dataclass is a field: each instance has its own
+    if isinstance(st.value, ast.List):
+        trees = [m.tree for m in S.modules.values()]
+        if not _only_read(trees, lambda x: isinstance(x, ast.Attribute) and x.attr == name) \
+                or not _only_read([ci.node], lambda x: isinstance(x, ast.Name) and x.id == name and isinstance(x.ctx, ast.Load)):
+            return None
+    return st.value
+
+
+def _module_constant(S, module: str, name: str):
+    """the display that the global `name` of the module evaluates to, when it is such a constant; else None"""
+    sc = _package_scan(S)
+    m = S.modules[module]
+    if name in sc["stored"] or sc["any"] or module in sc["dynamic"] or name in sc["globals"].get(module, set()) or name.startswith("__"):
+        return None
+    binds = _scope_bindings(m.tree.body, name)
+    st = next((s_ for s_ in m.tree.body if isinstance(s_, (ast.Assign, ast.AnnAssign)) and s_.value is not None
+               and any(b is (s_.targets[0] if isinstance(s_, ast.Assign) and len(s_.targets) == 1 else getattr(s_, "target", None)) for b in binds)), None)
+    if len(binds) != 1 or st is None or not _label_display(st.value):
+        return None
+    if isinstance(st.value, ast.List):
+        if name in sc["imported"] or not _only_read([m.tree], lambda x: isinstance(x, ast.Name) and x.id == name and isinstance(x.ctx, ast.Load)):
+            return None
+    return st.value
+
+
 class _WriteOut(ast.NodeTransformer):
     MAX_CASES = 12
     READERS = ("items", "values", "keys", "get", "copy", "index", "count")
@@ -97,6 +254,7 @@ class _WriteOut(ast.NodeTransformer):
         self.defs = Ctx(S, fi).local_defs()
         self.changed = False
         self._frozen: dict = {}
+        self._bound = None
 
     def visit_FunctionDef(self, x):
         return self.generic_visit(x) if x is self.fn else x        # nested functions have their own temporaries
@@ -151,12 +309,47 @@ class _WriteOut(ast.NodeTransformer):
             return None
         return list(zip(d.keys, d.values))
 
+    # -- a tuple / list of literal labels bound once at class level (`_COMPONENTS = ("Delta00", ..)`, read as `self._COMPONENTS`, `cls.`, `type(self).`,
+    #    `ClassName.`) or at module level, and never re-bound or changed anywhere in the package: every read of it is that display
+    def constant(self, e):
+        if not isinstance(getattr(e, "ctx", None), ast.Load):
+            return None
+        if isinstance(e, ast.Attribute):
+            ci = self._own_class(e.value)
+            return _class_constant(self.S, ci, e.attr) if ci is not None else None
+        if isinstance(e, ast.Name):
+            return _module_constant(self.S, self.fi.module, e.id) if self.constant_free(e.id) else None
+        return None
+
+    def visit_Attribute(self, x):
+        self.generic_visit(x)
+        d = self.constant(x)
+        if d is None:
+            return x
+        self.changed = True
+        return ast.copy_location(copy.deepcopy(d), x)
+
+    def visit_Name(self, x):
+        d = self.constant(x)
+        if d is None:
+            return x
+        self.changed = True
+        return ast.copy_location(copy.deepcopy(d), x)
+
     # -- the fields of a dataclass of the package: `dataclasses.fields(self)` are its declared fields, in declaration order
     FIELD = "__dataclass_field__"
 
     def _dataclass(self, e):
         """the ClassInfo of the package dataclass whose instance / class the expression e is: `self`, `type(self)`, `self.__class__`, the class
         name, a parameter annotated with the class of the method; None when unknown"""
+        ci = self._own_class(e)
+        if ci is None:
+            return None
+        is_dc = any(src(d.func if isinstance(d, ast.Call) else d) in ("dataclass", "dataclasses.dataclass") for d in ci.node.decorator_list)
+        return ci if is_dc and not ci.bases else None       # inherited fields are not followed
+
+    def _own_class(self, e, instance_only: bool = False):
+        """the ClassInfo of the method's own class when the expression e is an instance of it or the class itself (see _dataclass)"""
         fi = self.fi
         if fi.cls is None or fi.cls not in self.S.modules[fi.module].classes:
             return None
@@ -171,16 +364,16 @@ class _WriteOut(ast.NodeTransformer):
             stored = {x.id for x in ast.walk(self.orig) if isinstance(x, ast.Name) and isinstance(x.ctx, ast.Store)}
             if e.id in stored:
                 return None
-            own = e.id == first or e.id == fi.cls or (e.id in ann and ann[e.id] is not None and (
-                (isinstance(ann[e.id], ast.Constant) and ann[e.id].value == fi.cls) or (isinstance(ann[e.id], ast.Name) and ann[e.id].id == fi.cls)))
+            own = (e.id == first and not (instance_only and "classmethod" in deco)) or (e.id == fi.cls and not instance_only) \
+                or (e.id != first and e.id in ann and ann[e.id] is not None and (
+                    (isinstance(ann[e.id], ast.Constant) and ann[e.id].value == fi.cls) or (isinstance(ann[e.id], ast.Name) and ann[e.id].id == fi.cls)))
+        elif instance_only:
+            own = False
         elif isinstance(e, ast.Call) and isinstance(e.func, ast.Name) and e.func.id == "type" and len(e.args) == 1 and not e.keywords:
             own = isinstance(e.args[0], ast.Name) and e.args[0].id == first and "classmethod" not in deco
         elif isinstance(e, ast.Attribute) and e.attr == "__class__":
             own = isinstance(e.value, ast.Name) and e.value.id == first and "classmethod" not in deco
-        if not own:
-            return None
-        is_dc = any(src(d.func if isinstance(d, ast.Call) else d) in ("dataclass", "dataclasses.dataclass") for d in ci.node.decorator_list)
-        return ci if is_dc and not ci.bases else None       # inherited fields are not followed
+        return ci if own else None
 
     def field_cases(self, it):
         """the cases of an iteration over the declared fields of a package dataclass: `fields(x)` / `dataclasses.fields(x)` yields one field object
@@ -232,6 +425,11 @@ class _WriteOut(ast.NodeTransformer):
         kv = self.dict_items(it)
         if kv is not None:
             return [k for k, _ in kv]
+        # range(<n>) / range(<a>, <b>) of integer literals: the integers
+        if isinstance(it, ast.Call) and isinstance(it.func, ast.Name) and it.func.id == "range" and self.constant_free("range") and not it.keywords \
+                and 1 <= len(it.args) <= 2 and all(isinstance(a_, ast.Constant) and isinstance(a_.value, int) and not isinstance(a_.value, bool) for a_ in it.args):
+            lo, hi = (0, it.args[0].value) if len(it.args) == 1 else (it.args[0].value, it.args[1].value)
+            return [ast.Constant(value=v) for v in range(lo, hi)] if 0 < hi - lo <= self.MAX_CASES else None
         # lists held in a temporary must not have been changed since they were built
         for x in ast.walk(it):
             if isinstance(x, ast.Name) and x.id in self.defs and isinstance(self.defs[x.id], ast.List) and not self.frozen(x.id):
@@ -296,7 +494,7 @@ class _WriteOut(ast.NodeTransformer):
     def visit_Subscript(self, x):
         """`d["k"]` / `t[1]` of a display (held in a local that is only read): that element"""
         self.generic_visit(x)
-        if not isinstance(x.ctx, ast.Load) or not isinstance(x.value, ast.Name):
+        if not isinstance(x.ctx, ast.Load) or not (isinstance(x.value, ast.Name) or _label_display(x.value)):
             return x
         k = x.slice
         if isinstance(k, ast.UnaryOp) and isinstance(k.op, ast.USub) and isinstance(k.operand, ast.Constant) and isinstance(k.operand.value, int):
@@ -381,7 +579,48 @@ class _WriteOut(ast.NodeTransformer):
             else:
                 kws.append(k)
         x.args, x.keywords = args, kws
-        return x
+        return self._replace_call(x) or x
+
+    def _replace_call(self, x):
+        """`dataclasses.replace(obj, k=v, ..)` on an instance of the method's own dataclass: the constructor call of that class in which every field
+        that is not named is taken from `obj.<field>` (that is what replace does); None when x is not such a call"""
+        imports = self.S.modules[self.fi.module].imports
+        f = x.func
+        if not ((isinstance(f, ast.Name) and imports.get(f.id) == "dataclasses:replace" and self.constant_free(f.id))
+                or (isinstance(f, ast.Attribute) and f.attr == "replace" and isinstance(f.value, ast.Name) and imports.get(f.value.id) == "dataclasses"
+                    and self.constant_free(f.value.id))):
+            return None
+        if len(x.args) != 1 or not isinstance(x.args[0], ast.Name) or any(k.arg is None for k in x.keywords):
+            return None
+        ci = self._own_class(x.args[0], instance_only=True)
+        if ci is None or self._dataclass(x.args[0]) is None:
+            return None
+        names = []
+        for st in ci.node.body:
+            if isinstance(st, ast.AnnAssign) and isinstance(st.target, ast.Name):
+                if any(w in src(st.annotation) for w in ("ClassVar", "InitVar", "KW_ONLY")) or (st.value is not None and "init" in src(st.value)):
+                    return None          # pseudo-fields / fields the constructor does not take: not decoded
+                names.append(st.target.id)
+        given = [k.arg for k in x.keywords]
+        if not names or len(set(given)) != len(given) or set(given) - set(names):
+            return None
+        # (replace builds an object of obj's run-time class: the class of the method, unless the package derives from it)
+        if any(ci.name in [b.split(".")[-1] for b in c2.bases] for m in self.S.modules.values() for c2 in m.classes.values()):
+            return None
+        by = {k.arg: k.value for k in x.keywords}
+        kws = [ast.keyword(arg=nm, value=by[nm] if nm in by else ast.Attribute(value=ast.Name(id=x.args[0].id, ctx=ast.Load()), attr=nm, ctx=ast.Load()))
+               for nm in names]
+        self.changed = True
+        return ast.copy_location(ast.Call(func=ast.Name(id=ci.name, ctx=ast.Load()), args=[], keywords=kws), x)
+
+    def constant_free(self, name: str) -> bool:
+        """the global name is not bound inside the function or a function around it (parameter, local, nested definition, import, declaration)"""
+        if self._bound is None:
+            self._bound, f = set(), self.fi
+            while f is not None:
+                self._bound |= _bound_in(f.node)
+                f = f.parent
+        return name not in self._bound
 
 
 def _mentions(e, name: str) -> bool:
@@ -774,9 +1013,21 @@ def _builder(ci, meth: str, depth: int = 0):
     if depth > 3:
         return None
     fm = ci.methods.get(meth)
-    if fm is None:
-        alias = ci.consts.get(meth)
-        if isinstance(alias, ast.Name) and alias.id != meth:
+    # what the class body binds the name to: its last binding wins (`def __rmul__` ... or the class-level alias `__rmul__ = __mul__`)
+    last = None
+    for st in ci.node.body:
+        if isinstance(st, (ast.FunctionDef, ast.AsyncFunctionDef)) and st.name == meth:
+            last = st
+        elif isinstance(st, (ast.Assign, ast.AnnAssign)) and getattr(st, "value", None) is not None \
+                and any(isinstance(y, ast.Name) and y.id == meth for t in (st.targets if isinstance(st, ast.Assign) else [st.target]) for y in ast.walk(t)):
+            last = st
+    if fm is None or (last is not None and not isinstance(last, (ast.FunctionDef, ast.AsyncFunctionDef))):
+        alias = last.value if last is not None and isinstance(last, (ast.Assign, ast.AnnAssign)) else None
+        single = isinstance(last, ast.AnnAssign) or (isinstance(last, ast.Assign) and len(last.targets) == 1 and isinstance(last.targets[0], ast.Name))
+        # the alias names a method that the class body defines once (the function object it denotes is that definition)
+        if single and isinstance(alias, ast.Name) and alias.id != meth \
+                and len([s_ for s_ in ci.node.body if isinstance(s_, (ast.FunctionDef, ast.AsyncFunctionDef)) and s_.name == alias.id]) == 1 \
+                and len(_scope_bindings(ci.node.body, alias.id)) == 1:
             return _builder(ci, alias.id, depth + 1)
         return None
     body = [st for st in fm.node.body if not (isinstance(st, ast.Expr) and isinstance(st.value, ast.Constant) and isinstance(st.value.value, str))]
@@ -857,6 +1108,21 @@ def r13_4(chk: Check) -> None:
                            or (isinstance(x, ast.Attribute) and x.attr == "__dict__")]
                     if dyn:
                         bad.append(f"{k} built from an attribute chosen at run time: {dyn[0]}")
+            # linearity (moments are linear in the deviation): number * container scales every one of these components by that number,
+            # container + container adds them component by component -- whichever way the constructor call is spelled
+            prm = [p for p in fm.params()][1:]
+            me = fm.params()[0] if fm.params() else "self"
+            nonlin = []
+            if not bad and len(prm) == 1:
+                for k in checked:
+                    want = f"{prm[0]} * {me}.{k}" if meth != "__add__" else f"{prm[0]}.{k} + {me}.{k}"
+                    if not eqx(given[k], want, cm):
+                        nonlin.append(f"{k} = {n(given[k])[:80]}")
+            else:
+                nonlin.append("constructor call not understood")
+            chk.ob("R13.4", fm.where(), f"{cname}.{meth} is linear: " + ("every component is multiplied by the number" if meth != "__add__" else
+                                                                        "the components of the two operands are added"), not nonlin, "; ".join(nonlin),
+                   key=f"linear|{cname}.{meth}")
             if cname == "BoltzmannDeltas":
                 chk.ob("R13.4", fm.where(), f"{cname}.{meth} maps each moment to itself", not bad, "; ".join(bad), key=f"container|{cname}.{meth}")
             else:
